@@ -250,3 +250,80 @@ func TestC03TCP(t *testing.T) {
 		})
 	}
 }
+
+// TestC03TwoServers: "a nonce minted by this server instance": two turn.Servers in one process (same users, same
+// realm). The nonce server A hands out in its 401 is worthless at server B: every method signed with it and valid
+// credentials is challenged with 438 there and changes nothing; B's own nonce then works.
+func TestC03TwoServers(t *testing.T) {
+	r := rep.New("C03")
+	defer r.Write()
+	if i, _ := rep.Shard(); i != 0 {
+		return
+	}
+	for _, m := range udpMethods() {
+		if m.name == "Allocate-same-transaction-id" {
+			continue
+		}
+		bubble(t, r, "two-servers "+m.name, func() {
+			cfg := vtx.Config{Lifetime: 10 * time.Hour}
+			wa, err := vtx.NewWorld(cfg, []string{"c1"}, []string{"A", "B"})
+			if err != nil {
+				return
+			}
+			defer wa.Close()
+			wb, err := vtx.NewWorld(cfg, []string{"c1"}, []string{"A", "B"})
+			if err != nil {
+				return
+			}
+			defer wb.Close()
+			wa.C["c1"].Request(wire.Refresh, nil, nil) // learns A's nonce
+			foreign := wa.C["c1"].Nonce
+			x := &vtx.Exec{W: wb, M: vtx.NewModel(cfg), Chans: []uint16{0x4000}}
+			c := wb.C["c1"]
+			if m.needsAlloc {
+				for _, ev := range []vtx.Event{{K: "alloc", C: "c1", L: -1}, {K: "perm", C: "c1", Peers: []string{"A"}, L: -1},
+					{K: "chan", C: "c1", N: 0x4000, Peers: []string{"A"}, L: -1}} {
+					if v := x.Apply(ev); v != nil {
+						r.Violate(rep.Violation{Oracle: "harness", Signature: "harness:setup:" + v.Sig, Detail: v.Detail})
+
+						return
+					}
+				}
+			}
+			if foreign == "" || foreign == c.Nonce {
+				r.Violate(rep.Violation{Oracle: "harness", Signature: "harness:two-servers-share-a-nonce-text", Detail: foreign})
+
+				return
+			}
+			gen0 := wb.GenCalls
+			tx := wb.NextTx()
+			c.Send(build(m.method, tx, m.attrs, c.User, c.Pass, foreign, defect{name: "none", mi: "ok", valid: true}))
+			synctest.Wait()
+			got := "silence"
+			var resp *wire.Msg
+			for _, rx := range c.Recv() {
+				if rx.Msg != nil && rx.Msg.TxID == tx {
+					resp = rx.Msg
+					got = fmt.Sprintf("%d/%d", rx.Msg.Class, rx.Msg.ErrorCode())
+				}
+			}
+			r.Evaluations++
+			r.Class(fmt.Sprintf("nonce of another server instance/%s -> %s", m.name, got))
+			ev := vtx.Event{K: "req", C: "c1", L: -1}
+			switch {
+			case resp != nil && resp.Class == wire.Success:
+				r.Violate(rep.Violation{Oracle: "c03", Signature: "nonce-of-another-server-instance-accepted:" + m.name, Detail: got})
+			case resp == nil || resp.Class != wire.Error || resp.ErrorCode() != 438:
+				r.Violate(rep.Violation{Oracle: "c03", Signature: "nonce-of-another-server-instance-not-challenged-438:" + m.name, Detail: got})
+			case wb.GenCalls != gen0:
+				r.Violate(rep.Violation{Oracle: "c03", Signature: "nonce-of-another-server-instance:relay-socket-allocated:" + m.name})
+			default:
+				if v := x.CheckCount(ev); v != nil {
+					r.Violate(rep.Violation{Oracle: "c03", Signature: "nonce-of-another-server-instance:state-changed:" + m.name, Detail: v.Detail})
+				} else if v := x.Sweep(ev); v != nil {
+					r.Violate(rep.Violation{Oracle: "c03", Signature: "nonce-of-another-server-instance:state-changed:" + m.name + ":" + v.Tag, Detail: v.Detail})
+				}
+			}
+		})
+	}
+}
